@@ -370,6 +370,28 @@ Definition bbs_page_spec (es : list entry) (cur : option (Z * Z)) (k : nat) (des
            end
   end.
 
+(* ---- file names as bytes (ptttype.Filename_t): "M.<10 decimal digits>.A.<3 hex digits>" ----
+   The rest of the model represents a name by the pair (creation time, suffix number); this part ties that pair to the
+   bytes the code compares.  [digits b n v]: the n digits of v in base b, most significant first (fmt "%010d" / "%03X"). *)
+Fixpoint digits (b : Z) (n : nat) (v : Z) : list Z :=
+  match n with O => [] | S n' => digits b n' (v / b) ++ [v mod b] end.
+Definition dchar (d : Z) : Z := if d <? 10 then 48 + d else 55 + d.   (* '0'..'9', 'A'..'F' *)
+Definition sdigits (b : Z) (n : nat) (v : Z) : list Z := map dchar (digits b n v).
+Definition fname (t nm : Z) : list Z := 77 :: 46 :: sdigits 10 10 t ++ [46; 65; 46] ++ sdigits 16 3 nm.
+
+Fixpoint bytes_eqb (a b : list Z) : bool :=
+  match a, b with
+  | [], [] => true
+  | x :: a', y :: b' => (x =? y) && bytes_eqb a' b'
+  | _, _ => false
+  end.
+(* types.Cstrcmp(f[p:], f2[p:]) == 0 for names without a NUL inside *)
+Definition fn_eq_from (p : nat) (a b : list Z) : bool := bytes_eqb (skipn p a) (skipn p b).
+(* ptttype.Filename_t.Eq - "compare only with the timestamp and the rnd": the 2-byte type prefix is skipped, whatever the
+   site configuration is.  [sd] is the length of the safe-delete prefix (ptttype.FN_SAFEDEL_PREFIX_LEN, 2 for the default
+   FN_SAFEDEL=".d", 8 for ".deleted"): a global the lookup must not depend on, so the model takes it and ignores it. *)
+Definition fn_eq (sd : Z) (a b : list Z) : bool := fn_eq_from 2 a b.
+
 (* ---- wire ---- *)
 Definition entries_of_wire (l : list Z) : list entry :=
   (fix go (l : list Z) : list entry :=
@@ -390,9 +412,11 @@ Definition entry_wire (e : entry) : list Z := match e with Some (t, n) => [t; n]
    4 page walk: [k desc]; 5 the same walk through bbs.LoadGeneralArticles; 6 find_spec (the reference scan);
    7 one bbs.LoadGeneralArticles call with a client-supplied cursor: [hascur T nm k desc];
    8 bbs.LoadGeneralArticles walk with deletions between pages: [k desc] [page pos page pos ...];
-   9 bbs_page_spec (the reference for op 7) *)
-Definition run_case (args : list (list Z)) : list Z :=
+   9 bbs_page_spec (the reference for op 7);
+   21 Filename_t.Eq of M.<t>.A.<nm> and M.<t'>.A.<nm'> under the safe-delete prefix length sd: [sd t nm t' nm'] *)
+Definition run_base (args : list (list Z)) : list Z :=
   match args with
+  | [[21]; [sd; t; nm; t'; nm']] => [ST_OK; if fn_eq sd (fname t nm) (fname t' nm') then 1 else 0]
   | [[1]; es; [total; T; hasname; nm; desc]] =>
       wire_fr (fun i => [i]) (find (entries_of_wire es) total T (if hasname =? 0 then None else Some nm) (negb (desc =? 0)))
   | [[2]; es; [total; T; nm]] => wire_fr (fun i => [i]) (get_record (entries_of_wire es) total T nm)
@@ -414,4 +438,17 @@ Definition run_case (args : list (list Z)) : list Z :=
       | None => [ST_ERR; E_NOTFOUND]
       end
   | _ => [ST_BADCASE]
+  end.
+
+(* the site configuration: first group [20; sd; op] = "op under FN_SAFEDEL of length sd" (2 = the default ".d",
+   8 = ".deleted").  Lookup and paging do not read the safe-delete prefix: every op answers as under the default. *)
+Definition cfg_split (args : list (list Z)) : option (Z * list (list Z)) :=
+  match args with
+  | [c; sd; op] :: rest => if c =? 20 then Some (sd, [op] :: rest) else None
+  | _ => None
+  end.
+Definition run_case (args : list (list Z)) : list Z :=
+  match cfg_split args with
+  | Some (sd, inner) => if (2 <=? sd) && (sd <=? 8) then run_base inner else [ST_BADCASE]
+  | None => run_base args
   end.
